@@ -71,18 +71,20 @@ def family_templates(tier):
     return pool
 
 
-def subset(pool, tier, seed, every=3, thorough_every=1):
+def subset(pool, tier, seed, every=3, thorough_every=1, exclude=()):
     """quick tier: every special template and a deterministic third of the family templates
     (rotated by seed); thorough: everything"""
     if tier != "quick":
         # everything except C06's fully symbolic gradient-matrix templates (10-20 min each; they are
         # C06's own thorough tier and would multiply with the options of C01/C07)
-        # and C02's five-matrix chain (15-25 min on its own): both stay in their own check's thorough tier
+        # and C02's five-matrix chain / four nesting levels (5-25 min each on their own, solver-time varies): they stay
+        # in their own check's thorough tier
         return {
             k: v
             for k, v in pool.items()
             if not (k.startswith("C06:") and k.split(":", 1)[1] in c06.THOROUGH)
-            and k != "C02:matrix_chain"
+            and k not in ("C02:matrix_chain", "C02:four_levels")
+            and k not in exclude
             and (k.startswith("special:") or (zlib.crc32(k.encode()) + seed) % thorough_every == 0)
         }
     out = {}
